@@ -116,13 +116,19 @@ class Project:
         self.alias = None  # a symlink to root through which every file is named
         self.extra = []  # further target files of an already given kind: dict(kind, path, pre)
         self.def_name = dict(DEF_NAME)  # simple name of the definition of each kind in this project
+        self.tilde = False  # TARGET files are named as ~/<file> on the command line / in the namespace, with HOME = the project
+
+    def _arg(self, path_, kind):
+        if self.tilde and kind != self.truth:
+            return "~/" + os.path.basename(path_)
+        return path_
 
     def args(self, kinds=None):
         kinds = kinds or [k for k in KINDS if k in self.files]
         d = dict(truth=self.truth)
         for k in KINDS:
             plural = {"argparse_function": "argparse_functions", "class": "classes", "function": "functions"}[k]
-            d[plural] = ([self.files[k]] + [e["path"] for e in self.extra if e["kind"] == k]) if k in kinds else None
+            d[plural] = ([self._arg(self.files[k], k)] + [e["path"] for e in self.extra if e["kind"] == k]) if k in kinds else None
             d[k + "_names"] = [self.names[k]] if k in kinds else None
         return Namespace(**d)
 
@@ -131,7 +137,7 @@ class Project:
         argv = ["sync", "--truth", self.truth]
         flag = {"argparse_function": "--argparse-function", "class": "--class", "function": "--function"}
         for k in kinds:
-            argv += [flag[k], self.files[k], flag[k] + "-name", self.names[k]]
+            argv += [flag[k], self._arg(self.files[k], k), flag[k] + "-name", self.names[k]]
             for e in self.extra:
                 if e["kind"] == k:
                     argv += [flag[k], e["path"]]
@@ -139,7 +145,7 @@ class Project:
 
 
 def make_project(rng, root, truth, prestates, method=False, rich=False, kinds=KINDS, wild=False, ir=None, stale_ir=None, with_return=False,
-                 via_symlink=False, hand_written=False, extra_same_kind=False, crlf_files=False):
+                 via_symlink=False, hand_written=False, extra_same_kind=False, crlf_files=False, tilde_ok=False):
     """prestates: {kind: prestate} for the non-truth kinds.
     via_symlink: every file is named through a symlink to the project directory (abspath != realpath).
     hand_written: definitions that exist beforehand carry a comment (so re-generating them changes bytes).
@@ -242,6 +248,9 @@ def make_project(rng, root, truth, prestates, method=False, rich=False, kinds=KI
         feats["{}_no_trailing_newline".format(kind)] = not text.endswith("\n")
     feats["pre"] = {k: v for k, v in p.pre.items()}
     feats["via_symlink"], feats["hand_written"] = via_symlink, hand_written
+    # (only where every run goes through run_api / run_cli, which point HOME at the project)
+    p.tilde = tilde_ok and (not via_symlink) and rng.random() < 0.15
+    feats["targets_named_with_tilde"] = p.tilde
     feats["extra_same_kind"] = [e["pre"] for e in p.extra]
     if via_symlink:
         p.alias = root.rstrip(os.sep) + "_lnk"
@@ -262,11 +271,20 @@ def run_api(project, kinds=None):
     audit.begin(project.root, aliases=[project.alias] if project.alias else ())
     buf = io.StringIO()
     exc, report = None, None
+    old_home = os.environ.get("HOME")
+    if project.tilde:
+        os.environ["HOME"] = os.path.realpath(project.root)
     try:
         with contextlib.redirect_stdout(buf):
             report = ground_truth(project.args(kinds), os.path.realpath(project.files[project.truth]))
     except BaseException as e:  # noqa
         exc = e
+    finally:
+        if project.tilde:
+            if old_home is None:
+                os.environ.pop("HOME", None)
+            else:
+                os.environ["HOME"] = old_home
     events = audit.end()
     after = snapshot_dir(project.root)
     return {"report": report, "stdout": buf.getvalue(), "exc": exc, "audit": events, "before": before, "after": after,
@@ -275,6 +293,8 @@ def run_api(project, kinds=None):
 
 def run_cli(project, kinds=None, extra_env=None, argv=None, timeout=180):
     before = snapshot_dir(project.root)
+    if project.tilde:
+        extra_env = dict(extra_env or {}, HOME=os.path.realpath(project.root))
     pr = subprocess.run([sys.executable, "-m", "dtverif.cli_launcher"] + (argv or project.cli_argv(kinds)), cwd=env.ROOT,
                         env=env.child_env(extra_env), capture_output=True, text=True, timeout=timeout)
     after = snapshot_dir(project.root)
